@@ -320,7 +320,11 @@ pub fn generate(rng: &Rng, world: &World, tier: &str) -> C17 {
     let bn0 = BooleanNetwork::try_from(world.model.as_str()).expect("world model");
     // model file in one of the formats
     let (format, model_text) = match r.weighted(&[5, 3, 2]) {
-        1 => ("sbml".to_string(), bn0.to_sbml(None)),
+        1 => {
+            // every fifth sbml model has a species without any transition
+            let t = bn0.to_sbml(None);
+            ("sbml".to_string(), if r.chance(1, 5) { crate::c16::inject_isolated_species(&t, "iso_v") } else { t })
+        }
         2 => match bn0.to_bnet(true) {
             Ok(t) if BooleanNetwork::try_from_bnet(&t).is_ok() => ("bnet".to_string(), t),
             _ => ("aeon".to_string(), world.model.clone()),
@@ -790,7 +794,11 @@ fn judge_archive(path: &str, expected: &[String], reference: &Reference, rep: &m
         }
     };
     if context_names(&g2) != context_names(&reference.graph) {
-        rep.violate("archive_differs", format!("{how}: the archived model rebuilds another symbolic context"));
+        let lost = context_names(&reference.graph).iter().any(|n| n == "iso_v") && !context_names(&g2).iter().any(|n| n == "iso_v");
+        rep.violate(
+            "archive_differs",
+            format!("{how}: the archived model rebuilds another symbolic context{}", if lost { " [isolated variable lost by the archived model]" } else { "" }),
+        );
         return;
     }
     match isolated(9, || load_bdd_bundle(path, g2.symbolic_context())) {
@@ -867,6 +875,9 @@ pub fn check(world: &World, sc: &C17, sandbox: &str) -> Report {
         }
     };
     rep.probe(&format!("format_{}", sc.format), 1);
+    if sc.model_text.contains("qual:id=\"iso_v\"") {
+        rep.probe("networks_with_isolated_variable", 1);
+    }
     rep.probe(&format!("print_{}", sc.print), 1);
     let expected = formulas_of_file(&sc.formula_file);
     let exhaustive = sc.print == "exhaustive";
